@@ -15,7 +15,7 @@ RULE = ("Cases: 'comb': n=0..9 elements (distinct or repeated) with integer weig
         "yielded key must equal key(comb). 'interval': non-negative integer score vectors (ties, zeros) with [i_start, i_end) in and "
         "beyond the range of sums (empty, reversed); the returned (combination, sum) pairs must equal the brute-force set for the "
         "smallest sum inside the interval, each once. E5: all score vectors in {0..3}^n, n<=4, x all intervals over -1..13. "
-        "Non-trivial: >=2 different combinations share a key (ties). Distinct = distinct case JSON.")
+        "Keys need not be numbers: (length, sum) tuples, the combination itself and strings are in the key family. Non-trivial: >=2 different combinations share a key (ties). Distinct = distinct case JSON.")
 EXPLANATION = "exhaustive sub-domain: score vectors {0..3}^n for n<=4 with every interval [a,b), a,b in -1..13"
 ASSUMPTIONS = ["keys are monotone under appending an element (the documented precondition); scores are non-negative integers"]
 FLOORS = {}
@@ -36,6 +36,13 @@ def key_fn(name, w):
                 r *= w[i] + 1
             return r
         return prod
+    # keys need not be numbers: anything ordered that never decreases when an element is appended
+    if name == "tuple":
+        return lambda c: (len(c), sum(w[i] for i in c))
+    if name == "ident":
+        return lambda c: tuple(c)
+    if name == "str":
+        return lambda c: "".join(chr(97 + i) for i in c)
     raise AssertionError(name)
 
 
@@ -152,18 +159,18 @@ def enum_interval():
 def enum_comb():
     for n in range(0, 5):
         for w in itertools.product(range(3), repeat=n):
-            for key in ("sum", "max", "len", "prod"):
+            for key in ("sum", "max", "len", "prod", "tuple", "ident", "str"):
                 for yk in (False, True):
                     yield {"kind": "comb", "w": list(w), "key": key, "yield_key": yk}
 
 
 def enumerations(tier):
-    return [("interval-scores{0..3}^n<=4-all-intervals", enum_interval, True), ("comb-weights{0..2}^n<=4-4keys", enum_comb, True)]
+    return [("interval-scores{0..3}^n<=4-all-intervals", enum_interval, True), ("comb-weights{0..2}^n<=4-7keys", enum_comb, True)]
 
 
 def strategies(tier):
     big = tier == "thorough"
-    comb = st.fixed_dictionaries({"kind": st.just("comb"), "w": st.lists(st.integers(0, 4), max_size=9), "key": st.sampled_from(["sum", "max", "len", "prod"]),
+    comb = st.fixed_dictionaries({"kind": st.just("comb"), "w": st.lists(st.integers(0, 4), max_size=9), "key": st.sampled_from(["sum", "max", "len", "prod", "tuple", "ident", "str"]),
                                   "yield_key": st.booleans(), "els": st.one_of(st.none(), st.lists(st.sampled_from(["a", "b", "c"]), min_size=1, max_size=4))})
     interval = st.fixed_dictionaries({"kind": st.just("interval"), "w": st.lists(st.integers(0, 5), max_size=9),
                                       "a": st.integers(-1, 30), "b": st.integers(-1, 32)})
